@@ -35,7 +35,16 @@ def exceptions():
 
 
 def s1(prog, ctx, fns, exc):
-    tol = {r["key"]: r["reason"] for r in exc["null_uses"]}
+    import re
+    pats = [(re.compile(r["pattern"]), r["reason"]) for r in exc["null_uses"]]
+
+    class _Tol:
+        def __contains__(self, k):
+            return any(p.fullmatch(k) for p, _ in pats)
+
+        def __getitem__(self, k):
+            return next(r for p, r in pats if p.fullmatch(k))
+    tol = _Tol()
     nf, uses = nulls.analyse(prog, fns)
     ctx.counts["nullable string fields"] = len(nf)
     seen = set()
@@ -52,7 +61,7 @@ def s1(prog, ctx, fns, exc):
             ctx.fail("S1", inst, u.node.where,
                      "`%s` may be NULL (a key without delimiter has no value; entries may have no comment) and reaches %s without a test" % (u.access, u.sink),
                      key="null:" + u.key, path=u.path)
-    ctx.floor("C04.S1 uses of nullable fields in dereferencing positions", len(uses), 20)
+    ctx.floor("C04.S1 uses of nullable fields in dereferencing positions", len(uses), 12)
 
 
 def _strlen_of(e, fn, rd, at):
@@ -212,7 +221,18 @@ def s3(prog, ctx, fns, exc):
                     origin = render(outside[0].rhs)
             except Exception:
                 origin = ""
-            key = "%s:%s:%s" % (f.name, ctext, origin)
+            # key: names of the walking pointer and of parameters are abstracted, a local holding strlen(X) is resolved
+            def _norm(t):
+                t = t.replace("*--" + v, "*" + v).replace("*" + v + "--", "*" + v)
+                t = re.sub(r"(?<![\w$.])%s(?![\w$.])" % re.escape(v), "$p", t)
+                for d2 in f._rd3.defs:
+                    if d2.kind in ("init", "assign") and d2.rhs is not None and render(d2.rhs).startswith("strlen(") and \
+                            len([x for x in f._rd3.defs if x.var == d2.var and x.kind in ("init", "assign", "update")]) == 1:
+                        t = re.sub(r"(?<![\w$.])%s(?![\w$.])" % re.escape(d2.var), render(d2.rhs), t)
+                for k2, pnm in enumerate(f.param_names()):
+                    t = re.sub(r"(?<![\w$.])%s(?![\w$.])" % re.escape(pnm), "$%d" % k2, t)
+                return t
+            key = "%s:%s:%s" % (f.name, _norm(ctext), _norm(origin))
             inst = "%s: backward walk `while (%s) %s--`" % (f.name, ctext, v)
             sentinel = False
             try:
@@ -250,8 +270,33 @@ def _exception_holds(prog, f, key):
             a = c.call_args()[0].strip()
             if not (a.k == "CallExpr" and a.j.get("callee") == "ltrim"):
                 return False
+        # the walk itself is reached only with a non-empty string
+        cfg = f.cfg
+        rdx = ReachingDefs(f)
+        p0 = f.param_names()[0]
+
+        def is_len(n):
+            n = n.strip()
+            if n.k == "DeclRefExpr" and n.j.get("dk") == "local":
+                ds = [d for d in rdx.defs if d.var == n.j["name"] and d.kind in ("init", "assign")]
+                return len(ds) == 1 and ds[0].rhs is not None and render(ds[0].rhs) == "strlen(%s)" % p0
+            return render(n) == "strlen(%s)" % p0
+
+        def nonempty(lit, b, i):
+            if lit is None:
+                return False
+            if lit.kind == "lt":
+                return lit.pol and lit.lhs.const_value() == 0 and is_len(lit.rhs)
+            if lit.kind == "eq":
+                return (not lit.pol) and ((lit.lhs.const_value() == 0 and is_len(lit.rhs)) or (lit.rhs.const_value() == 0 and is_len(lit.lhs)))
+            return lit.kind == "truth" and lit.pol and is_len(lit.node)
+        walks = [w for w in f.walk() if w.k in ("WhileStmt", "DoStmt", "ForStmt")]
+        for w in walks:
+            ok, cut = cfg.all_paths_cut(cfg.loop_header(w), nonempty)
+            if not (ok and cut):
+                return False
         lt = prog.fn("ltrim")
-        return any(x.k == "WhileStmt" and "__ctype_b_loc" in render(x.child("cond")) for x in lt.walk())
+        return any(x.k in ("WhileStmt", "ForStmt") and x.child("cond") is not None and "__ctype_b_loc" in render(x.child("cond")) for x in lt.walk())
     return True
 
 
@@ -304,7 +349,7 @@ def s7(prog, ctx, fns):
                     ctx.ok("S7", inst, c.where, "%s = %s after the NULL test" % (a0, tgt))
                 else:
                     ctx.fail("S7", inst, c.where, "result kept in `%s` but `%s` is not updated: later uses read freed memory" % (tgt, a0), key="realloc:%s:%s" % (f.name, a0))
-    ctx.floor("C04.S7 realloc sites", n, 9)
+    ctx.floor("C04.S7 realloc sites", n, 6)
 
 
 def s8(prog, ctx, fns, exc):
@@ -348,67 +393,193 @@ def s8(prog, ctx, fns, exc):
                         ctx.ok("S8", inst, w.where, sh.describe())
                     continue
                 key = "%s:for" % f.name
-                # pointer scan written as for(...; *p && ...; p++)
-                inc = w.child("inc")
-                if inc is not None and cond is not None:
-                    v, step = loops._step_of(inc)
-                    if v and step > 0 and (ctext.startswith("*%s" % v) or ctext.startswith("(*%s" % v) or ctext.startswith("((*%s" % v)):
-                        ctx.ok("S8", inst, w.where, "pointer scan: stops at the terminating NUL, %s++ every round" % v)
-                        continue
-                if key in tol:
+                kind, v, why = _driven_loop(f, cfg, w, hb, cond)
+                if kind == "ok":
+                    ctx.ok("S8", inst, w.where, why)
+                elif kind == "stuck":
+                    ctx.fail("S8", inst, w.where, "a way round the loop does not advance `%s`: with matching input the loop never ends" % v, key="noprogress:" + key)
+                elif key in tol:
                     ctx.ok("S8", inst, w.where, "tolerated: " + tol[key])
+                elif kind == "nostop":
+                    ctx.fail("S8", inst, w.where, "the scan only stops at a particular character, not at the end of the string", key="nostop:" + key)
                 else:
                     ctx.inconclusive("S8", inst, w.where, "for loop not recognised: %s" % sh.describe())
                 continue
-            # while / do loops: find the scanned variable
+            # while / do loops (and for loops that are not counting loops): which variable drives the loop?
             key = "%s:%s" % (f.name, ctext)
-            m = re.search(r"\*(?:\+\+|--)?([A-Za-z_][\w$.]*)(?:\+\+|--)?", ctext) or re.search(r"([\w$.]+)\[([\w$.]+)\]", ctext)
-            if m is None:
-                if key in tol:
-                    ctx.ok("S8", inst, w.where, "tolerated: " + tol[key])
-                else:
-                    ctx.inconclusive("S8", inst, w.where, "condition `%s` not recognised" % ctext)
-                continue
-            v = m.group(2) if m.re.pattern.startswith("([") else m.group(1)
-            in_cond = bool(re.search(r"(\+\+|--)%s|%s(\+\+|--)" % (re.escape(v), re.escape(v)), ctext))
-            # does every way round the loop move v ?
-            adv_blocks = set()
-            for x in (body.walk() if body is not None else []):
-                if (x.k == "UnaryOperator" and x.j.get("op") in ("++", "--") and render(x.children[0]) == v) or \
-                   (x.k == "CompoundAssignOperator" and render(x.children[0]) == v):
-                    adv_blocks.add(cfg.block_of(x))
-            entry = cfg.loop_body_entry(w)
-            stuck = False
-            if not in_cond:
-                if not adv_blocks:
-                    stuck = True
-                else:
-                    reach = cfg.reachable(entry, avoid_blocks=list(adv_blocks) + [hb])
-                    nl = cfg.natural_loop(hb)
-                    stuck = any(s == hb and b in reach and b in nl for (b, i, s) in cfg.edges()) or (entry == hb)
-            stops_at_end = ("*%s" % v in ctext) or ("[%s]" % v in ctext)
-            nul_ok = True
-            # a scan comparing against a specific character does not stop at NUL by itself
-            mm = re.search(r"\*(\+\+)?%s(\+\+)? != ('[^']*'|\d+)" % re.escape(v), ctext)
-            if mm and mm.group(3) not in ("'\\x00'", "0", "'\\0'"):
-                nul_ok = False
-            backward = bool(re.search(r"--%s|%s--" % (re.escape(v), re.escape(v)), ctext)) or any(
-                x.k == "UnaryOperator" and x.j.get("op") == "--" and render(x.children[0]) == v for x in (body.walk() if body is not None else []))
-            if backward and not stuck:
-                ctx.ok("S8", inst, w.where, "backward walk over `%s`: one step per round; its lower bound is obligation S3" % v)
-                continue
-            if stuck:
+            verdict = _driven_loop(f, cfg, w, hb, cond)
+            kind, v, why = verdict
+            if kind == "ok":
+                ctx.ok("S8", inst, w.where, why)
+            elif kind == "stuck":
                 ctx.fail("S8", inst, w.where, "a way round the loop does not advance `%s`: with matching input the loop never ends" % v, key="noprogress:" + key)
-            elif not nul_ok:
+            elif kind == "nostop":
                 if key in tol:
                     ctx.ok("S8", inst, w.where, "tolerated: " + tol[key])
                 else:
                     ctx.fail("S8", inst, w.where, "the scan only stops at a particular character, not at the end of the string", key="nostop:" + key)
-            elif stops_at_end:
-                ctx.ok("S8", inst, w.where, "scan over `%s`: every round moves it, the terminator (NUL / NULL entry) ends the loop" % v)
+            elif key in tol:
+                ctx.ok("S8", inst, w.where, "tolerated: " + tol[key])
             else:
                 ctx.inconclusive("S8", inst, w.where, "condition `%s` not recognised" % ctext)
-    ctx.floor("C04.S8 loops", n, 45)
+    ctx.floor("C04.S8 loops", n, 30)
+
+
+def _deref_of(n, v):
+    """is n the character the scan variable v points at / indexes: *v, *++v, *v++, v[0], X[v]"""
+    n = n.strip()
+    if n.k == "UnaryOperator" and n.j.get("op") == "*":
+        o = n.children[0].strip()
+        if o.k == "UnaryOperator" and o.j.get("op") in ("++", "--"):
+            o = o.children[0].strip()
+        return o.k == "DeclRefExpr" and o.j.get("name") == v
+    if n.k == "ArraySubscriptExpr":
+        b, ix = n.children[0].strip(), n.children[1].strip()
+        if b.k == "DeclRefExpr" and b.j.get("name") == v and ix.const_value() == 0:
+            return True
+        if ix.k == "UnaryOperator" and ix.j.get("op") in ("++", "--"):
+            ix = ix.children[0].strip()
+        return ix.k == "DeclRefExpr" and ix.j.get("name") == v
+    return False
+
+
+def _value_at_terminator(n, v):
+    """value of the pure expression n when the scanned character is the terminator 0 (None = unknown)"""
+    n = n.strip()
+    if _deref_of(n, v):
+        return 0
+    if n.is_null_const():
+        return 0
+    cv = n.const_value()
+    if cv is not None:
+        return cv
+    k = n.k
+    if k == "UnaryOperator" and n.j.get("op") == "!":
+        x = _value_at_terminator(n.children[0], v)
+        return None if x is None else int(not x)
+    if k == "BinaryOperator":
+        op = n.j.get("op")
+        a = _value_at_terminator(n.children[0], v)
+        b = _value_at_terminator(n.children[1], v)
+        if op == "=":
+            return b
+        if op == "&&":
+            if a == 0 or b == 0:
+                return 0
+            return None if a is None or b is None else 1
+        if op == "||":
+            if (a is not None and a != 0) or (b is not None and b != 0):
+                return 1
+            return None if a is None or b is None else 0
+        if op == "&" and "__ctype_b_loc" in render(n.children[0]) and "_IScntrl" not in render(n.children[1]):
+            ix = n.children[0].strip()
+            if ix.k == "ArraySubscriptExpr" and _value_at_terminator(ix.children[1], v) == 0:
+                return 0        # no <ctype.h> class except cntrl contains NUL
+        if a is None or b is None:
+            return None
+        if op in ("==", "!=", "<", ">", "<=", ">="):
+            return int({"==": a == b, "!=": a != b, "<": a < b, ">": a > b, "<=": a <= b, ">=": a >= b}[op])
+    if k == "CallExpr" and n.j.get("callee") in ("isspace", "isdigit", "isalpha", "isalnum", "isblank", "isupper", "islower", "ispunct", "isxdigit", "isprint", "isgraph") \
+            and n.call_args() and _value_at_terminator(n.call_args()[0], v) == 0:
+        return 0
+    return None
+
+
+def _every_round_moves(cfg, hb, movers):
+    """does every cycle through the loop header pass a block that moves the variable?"""
+    if hb in movers:
+        return True
+    nl = cfg.natural_loop(hb)
+    allowed = set(nl) - set(movers)
+    seen, work = set(), [s2 for (b, i2, s2) in cfg.edges() if b == hb and s2 in nl]
+    while work:
+        b = work.pop()
+        if b == hb:
+            return False
+        if b in seen or b not in allowed:
+            continue
+        seen.add(b)
+        work.extend(s2 for (bb, i2, s2) in cfg.edges() if bb == b and s2 in nl)
+    return True
+
+
+def _conjuncts(e):
+    e2 = e.strip()
+    if e2.k == "BinaryOperator" and e2.j.get("op") == "&&":
+        return _conjuncts(e2.children[0]) + _conjuncts(e2.children[1])
+    return [e2]
+
+
+def _driven_loop(f, cfg, w, hb, cond):
+    """('ok'|'stuck'|'nostop'|'unknown', variable, reason) for a loop that is not a canonical counting for-loop"""
+    if cond is None:
+        return ("unknown", None, "no condition")
+    parts = [cond, w.child("body")] + ([w.child("inc")] if w.k == "ForStmt" else [])
+    movers = {}
+    for part in parts:
+        for x in (part.walk() if part is not None else []):
+            tgt = None
+            if x.k == "UnaryOperator" and x.j.get("op") in ("++", "--"):
+                tgt, d = x.children[0].strip(), (1 if x.j["op"] == "++" else -1)
+            elif x.k == "CompoundAssignOperator" and x.j.get("op") in ("+=", "-="):
+                cvv = x.children[1].const_value()
+                tgt, d = x.children[0].strip(), (0 if not cvv else (1 if (x.j["op"] == "+=") == (cvv > 0) else -1))
+            if tgt is not None and tgt.k == "DeclRefExpr":
+                movers.setdefault(tgt.j["name"], []).append((x, d))
+    cands = [v for v in movers if query.mentions_name(cond, v)]
+    verdicts = []
+    stored = set()
+    for lhs, rhs, st, kind in query.stores(f):
+        if st.within(w):
+            stored.add(render(lhs))
+    for v in cands:
+        dirs = set(d for _, d in movers[v])
+        moves = _every_round_moves(cfg, hb, set(cfg.block_of(x) for x, _ in movers[v]))
+        uses_char = any(_deref_of(x, v) for x in cond.walk())
+        if uses_char:
+            if not moves:
+                verdicts.append(("stuck", v, ""))
+                continue
+            if dirs == {-1}:
+                verdicts.append(("ok", v, "backward walk over `%s`: one step per round; its lower bound is obligation S3" % v))
+                continue
+            val = _value_at_terminator(cond, v)
+            if val == 0 and dirs == {1}:
+                verdicts.append(("ok", v, "scan over `%s`: every round moves it, the terminator (NUL / NULL entry) ends the loop" % v))
+            elif val is not None and val != 0:
+                verdicts.append(("nostop", v, ""))
+            else:
+                verdicts.append(("unknown", v, ""))
+            continue
+        # counting: a conjunct v < B / v <= B (B untouched in the loop), v stepping up; or v > 0 stepping down
+        for c in _conjuncts(cond):
+            if c.k != "BinaryOperator" or c.j.get("op") not in ("<", "<=", ">", ">=", "!="):
+                continue
+            a, b = c.children[0].strip(), c.children[1].strip()
+            op = c.j["op"]
+            if b.k == "DeclRefExpr" and b.j.get("name") == v and a.k != "DeclRefExpr":
+                a, b, op = b, a, {"<": ">", "<=": ">=", ">": "<", ">=": "<=", "!=": "!="}[op]
+            if not (a.k == "DeclRefExpr" and a.j.get("name") == v):
+                continue
+            btxt = render(b)
+            if btxt in stored or any(t in stored for t in re.findall(r"[A-Za-z_][\w$.]*(?:->\w+|\.\w+)*", btxt)):
+                continue
+            if op in ("<", "<=") and dirs == {1}:
+                verdicts.append(("ok", v, "counting loop: `%s` grows every round towards the fixed bound `%s`" % (v, btxt)) if moves else ("stuck", v, ""))
+            elif op in (">", ">=") and dirs == {-1}:
+                verdicts.append(("ok", v, "counting loop: `%s` shrinks every round towards `%s`" % (v, btxt)) if moves else ("stuck", v, ""))
+    for kind in ("stuck", "ok", "nostop", "unknown"):
+        for vd in verdicts:
+            if vd[0] == kind:
+                return vd
+    # a scanned variable that is never moved at all
+    for x in cond.walk():
+        if x.k == "UnaryOperator" and x.j.get("op") == "*" and x.children[0].strip().k == "DeclRefExpr" and x.children[0].strip().j.get("dk") in ("local", "param"):
+            v = x.children[0].strip().j["name"]
+            if v not in movers and not any(render(l) == v for l, r2, st, k2 in query.stores(f) if st.within(w)):
+                if not any(c2.k == "CallExpr" for c2 in w.walk()):
+                    return ("stuck", v, "")
+    return ("unknown", None, "")
 
 
 def _bound_grows_bounded(f, w, sh, moved):
